@@ -338,15 +338,12 @@ class CustomFootnoteDef(footnote.FootnoteDef):
         super().__init__(match)
         # Marko compares line prefixes with the line after expanding its tabs, so a prefix
         # that holds a tab can never match and the block parser stops making progress
-        # (`[^fn]:` + tab + `x` hangs). Write the whitespace after the colon as the
-        # spaces it expands to.
-        text = match.group()
-        marker = text.rstrip()
+        # (`[^fn]:` + tab + `x`, or a tab inside the label, hangs). Write the matched text
+        # into the prefix as it looks after tab expansion.
         line_start = match.string.rfind("\n", 0, match.start()) + 1
-        before = match.string[line_start : match.start()] + marker
+        before = match.string[line_start : match.start()]
         whole = match.string[line_start : match.end()]
-        width = len(whole.expandtabs(4)) - len(before.expandtabs(4))
-        self._prefix = re.escape(marker) + " " * width
+        self._prefix = re.escape(whole.expandtabs(4)[len(before.expandtabs(4)) :])
 
 
 class CustomParser(Parser):
